@@ -190,7 +190,7 @@ func runPlan(w *world, sc *Scenario) *run {
 			doW0(p.After)
 		}
 	}
-	r.writersDone.Store(true)
+	r.gate.finish()
 	r.finishSubs()
 	return r
 }
